@@ -71,7 +71,9 @@ def run(ck, m):
     comps = []
     for e in un.targets[0].elts:
         nm = norm(e.value) if isinstance(e, ast.Starred) else norm(e)
-        if nm != "_":
+        # a component that is never read anywhere is a discard (`_`, whatever its spelling after inlining): it is not geometry the method uses
+        read_ = any(isinstance(x, ast.Name) and x.id == nm and isinstance(x.ctx, ast.Load) for x in ast.walk(tc))
+        if nm != "_" and (read_ or not nm.startswith("_")):
             comps.append(nm)
     add = next((c for c in body_walk(tc) if isinstance(c, ast.Call) and norm(c.func) == "image_cviews.add"), None)
     ck.need(add is not None and isinstance(add.args[0], ast.Tuple), "_ti_clear_images: image_cviews.add((...)) not found")
@@ -104,7 +106,9 @@ def run(ck, m):
         p = g.search([n], lambda x: x is g.exit_return, avoid=lambda x: x in upd, edge_ok=lambda s, lab, d: not lab.startswith(("e:", "p:")))
         # a read that found nothing to clear (`if self._ti_image_cviews:` false) needs no update
         if n.kind == "test":
-            p = g.search([n], lambda x: x is g.exit_return, avoid=lambda x: x in upd, edge_ok=lambda s, lab, d: not lab.startswith(("e:", "p:")) and not (s is n and lab == "false"))
+            tst_ = getattr(n.ast, "test", n.ast)
+            empty_lab = "true" if isinstance(tst_, ast.UnaryOp) and isinstance(tst_.op, ast.Not) else "false"       # (`if not views: return` is the same shortcut)
+            p = g.search([n], lambda x: x is g.exit_return, avoid=lambda x: x in upd, edge_ok=lambda s, lab, d: not lab.startswith(("e:", "p:")) and not (s is n and lab == empty_lab))
         ck.ob("R2", n.ast if n.kind != "iter" else n.ast.iter, p is None, f"after inspecting the recorded image views the method can return without recording the new set ({fmt_path(p) if p else ''}): the next redraw would compare against stale views",
               stmt=f"_ti_clear_images: views updated after `{short(n.ast if n.kind != 'iter' else n.ast.iter, 50)}`")
     last = tc.body[-1]
@@ -184,10 +188,11 @@ def run(ck, m):
           stmt="clear_images[all]: disguise changed on every path (now or deferred)")
     wl = next((n for n in body_walk(ci) if isinstance(n, ast.For) and "enumerate(widgets)" in norm(n.iter)), None)
     # both the disguise change and the queuing run for exactly the kitty widgets (enclosing `if`, or after a `continue` guard)
+    wv_ = norm(wl.target.elts[1]) if wl is not None and isinstance(wl.target, ast.Tuple) and len(wl.target.elts) == 2 else "widget"       # (the loop variable, whatever it is called)
     def _kitty_only(call_src):
         cs_ = [c for c in (walk_local(wl) if wl is not None else []) if isinstance(c, ast.Call) and norm(c) == call_src]
-        return len(cs_) == 1 and "isinstance(widget._ti_image, KittyImage)" in conds(cs_[0])
-    okw = wl is not None and _kitty_only("widget._ti_change_disguise()") and _kitty_only("kitty_widgets.append(widget)")
+        return len(cs_) == 1 and f"isinstance({wv_}._ti_image, KittyImage)" in conds(cs_[0])
+    okw = wl is not None and _kitty_only(f"{wv_}._ti_change_disguise()") and _kitty_only(f"kitty_widgets.append({wv_})")
     ck.ob("R3", wl or ci, okw, "clearing specific widgets must change each kitty widget's disguise when it is queued for deletion (independently of now)", stmt="clear_images[widgets]: per-widget disguise changed")
 
     # ---- R4 ----------------------------------------------------------------------------
